@@ -18,6 +18,7 @@ fi
 cd "$HERE"
 AMOSIM_REPO="$S" AMOSIM_EVIDENCE_DIR="$OUT/ev" AMOSIM_REPLAY_DIR="$OUT/rp" ./check "$PROP" --tier "$TIER" > "$OUT/log" 2>&1
 RC=$?
-grep -E "^(VIOLATION|KNOWN-FINDING|HARNESS)" "$OUT/log" | head -5
+grep -E "^(VIOLATION|HARNESS)" "$OUT/log" | head -6
+echo "($(grep -c "^KNOWN-FINDING" "$OUT/log") KNOWN-FINDING lines)"
 echo "MUTANT $(basename "$PATCH") $PROP exit=$RC"
 exit 0
